@@ -484,13 +484,28 @@ func (r *Run) Exec() (stuck []string, err error) {
 		<-allDone
 	}
 	if r.Stress {
+		// real time: a wall-clock watchdog (30 s) only turns a hang into a released, recorded `stuck`
+		// run; engines treat it as inconclusive unless a hang is the property's violation
+		wd := time.NewTimer(30 * time.Second)
 		if sc.Shutdown == 1 {
 			for started.Load() < total || r.pendingEnqueue.Load() > 0 {
 				runtime.Gosched()
+				select {
+				case <-wd.C:
+					release()
+				default:
+					continue
+				}
+				break
 			}
 		} else {
-			<-allDone
+			select {
+			case <-allDone:
+			case <-wd.C:
+				release()
+			}
 		}
+		wd.Stop()
 	} else if sc.Shutdown == 1 {
 		// shut down as soon as every scripted call has been made and is enqueued (or has returned)
 		t := time.NewTimer(horizon)
@@ -518,7 +533,11 @@ func (r *Run) Exec() (stuck []string, err error) {
 	serr := proc.Shutdown(context.Background())
 	r.add(Ev{Kind: "shutdown_ret", Err: serr})
 	if r.Stress {
-		<-allDone
+		select {
+		case <-allDone:
+		case <-time.After(30 * time.Second):
+			release()
+		}
 	} else {
 		// callers that are still blocked after Shutdown (stranded waiters) are released at the horizon
 		t := time.NewTimer(durMax(horizon-r.vt(), 0) + time.Hour)
